@@ -6,6 +6,7 @@ import (
 
 	schema "github.com/jsightapi/jsight-schema-core"
 	"github.com/jsightapi/jsight-schema-core/bytes"
+	"github.com/jsightapi/jsight-schema-core/errs"
 	"github.com/jsightapi/jsight-schema-core/notations/jschema"
 	"github.com/jsightapi/jsight-schema-core/notations/regex"
 	"github.com/jsightapi/jsight-schema-core/rules/enum"
@@ -423,7 +424,12 @@ func (c *Catalog) AddType(
 	switch typeNotation {
 	case notation.SchemaNotationJSight:
 		s, _ := coreUserTypes.Get(name)
-		es := newExchangeJSightSchema(s.(*jschema.JSchema))
+		js := s.(*jschema.JSchema)
+		if js.Inner != nil && js.Inner.RootNode() == nil {
+			// nothing but a comment in the body: see NewExchangeJSightSchema
+			return d.BodyError(errs.ErrEmptySchema.F().Error())
+		}
+		es := newExchangeJSightSchema(js)
 		es.catalogUserTypes = c.UserTypes
 		userType.Schema = es
 	case notation.SchemaNotationRegex:
